@@ -101,7 +101,8 @@ def setup(flavour, tier):
         seed = int(os.environ.get("VERIF_SEED", "1"))
         if len(sys.argv) > 4 and sys.argv[4].isdigit():
             seed = int(sys.argv[4]) % (2 ** 31 - 1) + 1
-        SEED_CASES.append({"kind": "fuzz", "seed": seed, "runs": int(os.environ.get("VERIF_FUZZ_RUNS", FUZZ_RUNS.get(tier, 20000))), "max_len": 160})
+        SEED_CASES.append({"kind": "fuzz", "seed": seed, "runs": int(os.environ.get("VERIF_FUZZ_RUNS", FUZZ_RUNS.get(tier, 20000))), "max_len": 160,
+                           "max_time": 1500})      # the budget is the number of executions; the time bound is a safety net for a loaded machine
 
 
 def strategy(tier):
@@ -513,7 +514,7 @@ def run_fuzz(case):
         with open(os.path.join(corpus, "seed%02d" % i), "wb") as f:
             f.write(s)
     cmd = [exe, "-runs=%d" % case["runs"], "-seed=%d" % case["seed"], "-max_len=%d" % case["max_len"], "-len_control=0", "-artifact_prefix=" + work + "/",
-           "-print_final_stats=1", "-timeout=20", "-rss_limit_mb=4096", "-close_fd_mask=1", corpus]
+           "-print_final_stats=1", "-timeout=20", "-rss_limit_mb=4096", "-close_fd_mask=1", "-max_total_time=%d" % case.get("max_time", 1500), corpus]
     try:
         err, rc = _run_with_heartbeat(cmd, _fuzz_env(), os.path.join(work, "stderr.txt"), limit=3000)
         stats = dict(re.findall(r"stat::(\w+):\s+(\d+)", err))
